@@ -207,6 +207,42 @@ let handle kind a =
        | (IxRefused FErr, _) -> Some "IxErr"
        | (IxRefused FPanic, _) -> Some "IxPanic"
        | (IxRead e, _) -> Some (err e))
+  | "bamu" ->
+      (* byte level: region queries and unmapped queries one after the other on the reader that
+         built the index; see harness/src/shared/c04_bytes.rs *)
+      let hl = n_of_dec a.(0) in
+      let frames = if a.(2) = "_" then [] else
+        List.map (fun p -> match split_on '.' p with
+          | [c; d] -> { csize = n_of_dec c; fdata = bytes_of_hex d }
+          | _ -> failwith "frame") (split_on ',' a.(2)) in
+      let kd = if a.(3) = "lin" then Linear else Binned in
+      let ms = n_of_int (int_of_string a.(4)) and d = nat_of_int (int_of_string a.(5)) in
+      let nref = nat_of_int (int_of_string a.(6)) in
+      let opt s = if s = "-" then None else Some (n_of_dec s) in
+      let ops = List.map (fun q -> if q = "U" then OpUnmapped else match split_on ':' q with
+        | [k; s; e] -> OpRegion (n_of_dec k, (opt s, opt e)) | _ -> failwith "op") (split_on ';' a.(8)) in
+      let hash b = List.fold_left (fun h x -> mix h (int_of_n x)) 0 b in
+      let desc b = Printf.sprintf "%d-%d" (List.length b) (hash b) in
+      let err e = match e with
+        | Err0 UnexpectedEof0 -> "Err:UnexpectedEof" | Err0 InvalidData0 -> "Err:InvalidData"
+        | Err0 InvalidInput0 -> "Err:InvalidInput" | Panic0 -> "Panic" | OutOfFuel0 -> "OutOfFuel"
+        | _ -> "Unmodelled" in
+      (match byte_bam_ops_session_x frames hl kd ms d nref ops with
+       | (IxOk l, answers) ->
+           let b = Buffer.create 256 in
+           Buffer.add_string b "S";
+           Buffer.add_string b (String.concat "," (List.map (fun r ->
+             dec_of_n r.br_a ^ "-" ^ dec_of_n r.br_b ^ "-" ^ desc r.br_body) l));
+           List.iter2 (fun op r ->
+             Buffer.add_string b (match op with OpUnmapped -> "|U" | OpRegion _ -> "|Q");
+             match r with
+             | BInvalid -> Buffer.add_string b "Err:InvalidInput"
+             | BRead (Ok0 bodies) -> Buffer.add_string b (String.concat "," (List.map desc bodies))
+             | BRead e -> Buffer.add_string b (err e)) ops answers;
+           Some (Buffer.contents b)
+       | (IxRefused FErr, _) -> Some "IxErr"
+       | (IxRefused FPanic, _) -> Some "IxPanic"
+       | (IxRead e, _) -> Some (err e))
   | _ -> None
 
 let () = run_driver handle
